@@ -216,7 +216,7 @@ func runActionCheck(r *core.Run, sp *ActionSpec) {
 			continue
 		}
 		sig := sp.Sig(m.b.acts[m.i], m.b.exps[m.i], obs2[m.i])
-		if reported[sig] {
+		if sig != sig0 && reported[sig] {
 			continue
 		}
 		reported[sig] = true
@@ -346,8 +346,11 @@ func runActionCheck(r *core.Run, sp *ActionSpec) {
 			}
 			res := r.RunTLC(core.TLCOpts{Module: sp.Module + "Trace", Cfg: sp.Module + "Trace.cfg", Workers: 1,
 				Texts: map[string]string{"trace.ndjson": b.String()}, Timeout: 20 * time.Minute, KeepOut: true})
-			if res.OK || res.Depth-1 != ci+1 {
-				core.Fail("%sTrace does not reject a history whose answer at step %d was changed (stopped at line %d): the binding is vacuous", sp.Module, ci+1, res.Depth-1)
+			if res.OK {
+				core.Fail("%sTrace accepts a history whose answer at step %d was changed: the binding is vacuous", sp.Module, ci+1)
+			}
+			if res.Depth-1 != ci+1 {
+				continue // this history is rejected earlier for a reason of its own (a reported violation): take another one
 			}
 			r.Count("binding_selftest_corrupted_history_rejected", 1)
 			break
